@@ -128,7 +128,10 @@ def _const(v):
     from synapgrad.tensor import Tensor
     import sys
     tm = sys.modules["synapgrad.tensor"]
-    return Tensor(np.array(v, dtype=tm.default_type__ if tm.default_type__ is object else np.float64))
+    if tm.default_type__ is object:
+        from ..symreal.core import lift_arr
+        return Tensor(lift_arr(np.array(v, dtype=object)))       # exact rationals, so that constant arithmetic is not rounded
+    return Tensor(np.array(v, dtype=np.float64))
 
 
 # ------------------------------------------------------------------------------------------- linear
